@@ -211,9 +211,11 @@ func (x *Exec) fieldAddr(base Term, root types.Type, path []int) Term {
 		x.sym.declareFun("fieldaddr", []Sort{SInt, SInt}, SInt)
 		x.sym.declareFun("fa_base", []Sort{SInt}, SInt)
 		x.sym.declareFun("fa_field", []Sort{SInt}, SInt)
-		x.sym.defineRaw("fieldaddr!axiom", "(assert (forall ((b Int) (f Int)) (! (and (= (fa_base (fieldaddr b f)) b) (= (fa_field (fieldaddr b f)) f)) :pattern ((fieldaddr b f)))))")
 	}
-	return mk(SInt, "fieldaddr", base, intLit(int64(id)))
+	t := mk(SInt, "fieldaddr", base, intLit(int64(id)))
+	// ground injectivity facts for this term (emitted with every query that mentions it)
+	x.sym.ground[t.S] = "(assert (and (= (fa_base " + t.S + ") " + base.S + ") (= (fa_field " + t.S + ") " + fmt.Sprint(id) + ")))"
+	return t
 }
 
 func pathStr(p []int) string {
